@@ -77,6 +77,36 @@ func runC17(c *Ctx) {
 		c.Check(!aU.StateAtExpr(del.Call).Reachable(), "C17.2-delete-last", "Upgrade: built-in Delete after "+name, del.Call.Pos(),
 			"the Delete is unreachable without passing "+name, "the built-in StatefulSet can be deleted without "+name)
 	}
+	// success means done: no successful return is reachable without the built-in Delete having been issued (a re-run
+	// after an interruption must end in the same state as an uninterrupted run; an "already up to date" shortcut that
+	// returns before the Delete leaves the built-in set in place for good)
+	{
+		aD := fn.FromUntil(entry, gf.TrueState(), stmt(del))
+		nR := 0
+		ownNodes(fi.Decl.Body, func(x ast.Node) {
+			ret, ok := x.(*ast.ReturnStmt)
+			if !ok || len(ret.Results) == 0 {
+				return
+			}
+			st := aD.StateBefore(ret)
+			if !st.Reachable() {
+				return
+			}
+			nR++
+			last := ret.Results[len(ret.Results)-1]
+			name := fmt.Sprintf("Upgrade: return #%d before the built-in Delete", nR)
+			if isErrorCtor(fn.Info, last) {
+				c.OK("C17.5-success-only-after-the-delete", name, ret.Pos(), "an error built on the spot")
+				return
+			}
+			if g, _ := st.Implies(gf.FNotNil(fn.Term(last))); g && !isNilExpr(fn.Info, last) {
+				c.OK("C17.5-success-only-after-the-delete", name, ret.Pos(), "returns a non-nil error")
+			} else {
+				c.Bad("C17.5-success-only-after-the-delete", name, ret.Pos(), "Upgrade can report success without having deleted the built-in StatefulSet: a re-run after an interruption ends here every time")
+			}
+		})
+		c.Floor("C17.5-returns-before-the-delete", nR, 4)
+	}
 	mustPass("create-or-update of the Advanced set", stmt(create), stmt(update))
 	mustPass("UpdateStatus", stmt(ustatus))
 	mustPass("the revision List", stmt(list))
@@ -181,6 +211,7 @@ func runC17(c *Ctx) {
 	c.Check(okCopy, "C17.4-status-copied", "Upgrade: UpdateStatus", ustatus.Call.Pos(), "the built-in set's status is copied onto the object before UpdateStatus on every path", "UpdateStatus can be sent without the built-in set's status copied onto the object")
 	// spec: create from the converted object, update sets Spec from it
 	c.specCopied(fi, fn, conv, create.Site, update.Site)
+	c.convertedUnmodified("C17.4")
 	// C17.5 error discipline restricted to Upgrade
 	var scopes []errScope
 	helpers := map[*load.FuncInfo]bool{}
@@ -416,4 +447,103 @@ func enclosingScope(body *ast.BlockStmt, n ast.Node) ast.Node {
 		return true
 	})
 	return best
+}
+
+// convertedUnmodified: what Upgrade sends as the Advanced set's spec and status is the conversion of the built-in set
+// as it is: the converted object is not written to, and neither it nor its copy is handed to an in-repo function
+// that writes through that parameter (defaulting the converted set changes its pod template, and with it the
+// revision data the controller computes after the migration).
+func (c *Ctx) convertedUnmodified(prefix string) {
+	fi := c.Func(load.HelperPkg, "Upgrade")
+	if fi == nil {
+		return
+	}
+	conv, _ := c.P.Lookup(load.HelperPkg, "FromBuiltinStatefulSet").(*types.Func)
+	if conv == nil {
+		c.Fail("FromBuiltinStatefulSet does not resolve")
+		return
+	}
+	fn := c.E.FnOf(fi)
+	pw := gf.BuildParamWrites(c.P, c.E.Sum)
+	n := 0
+	hosts := append([]*load.FuncInfo{fi}, fn.Expanded()...)
+	for _, h := range hosts {
+		info := h.Pkg.TypesInfo
+		// the converted object and its deep copies in this function
+		tracked := map[types.Object]string{}
+		ast.Inspect(h.Decl.Body, func(x ast.Node) bool {
+			as, ok := x.(*ast.AssignStmt)
+			if !ok || len(as.Rhs) != 1 || len(as.Lhs) < 1 {
+				return true
+			}
+			id, ok := as.Lhs[0].(*ast.Ident)
+			if !ok {
+				return true
+			}
+			if call, ok := ast.Unparen(as.Rhs[0]).(*ast.CallExpr); ok {
+				if f := gf.StaticCallee(info, call); f != nil && f.Origin() == conv {
+					tracked[info.ObjectOf(id)] = "the converted set"
+				}
+			}
+			return true
+		})
+		if len(tracked) == 0 {
+			continue
+		}
+		ast.Inspect(h.Decl.Body, func(x ast.Node) bool {
+			as, ok := x.(*ast.AssignStmt)
+			if !ok || len(as.Rhs) != 1 || len(as.Lhs) != 1 {
+				return true
+			}
+			id, ok := as.Lhs[0].(*ast.Ident)
+			if !ok {
+				return true
+			}
+			if call, ok := ast.Unparen(as.Rhs[0]).(*ast.CallExpr); ok {
+				if sel, ok := ast.Unparen(call.Fun).(*ast.SelectorExpr); ok && sel.Sel.Name == "DeepCopy" {
+					if b, ok := ast.Unparen(sel.X).(*ast.Ident); ok && tracked[info.ObjectOf(b)] == "the converted set" {
+						tracked[info.ObjectOf(id)] = "the copy of the converted set"
+					}
+				}
+			}
+			return true
+		})
+		// calls that write through it
+		for _, call := range callsIn(h.Decl.Body, true) {
+			f := gf.StaticCallee(info, call)
+			if f == nil || f.Pkg() == nil || !load.IsRepo(f.Pkg().Path()) {
+				continue
+			}
+			for k, a := range call.Args {
+				id, ok := ast.Unparen(a).(*ast.Ident)
+				if !ok || tracked[info.ObjectOf(id)] == "" {
+					continue
+				}
+				n++
+				name := fmt.Sprintf("%s: %s(%s)", h.Obj.Name(), f.Name(), id.Name)
+				c.Check(!pw.Writes(c.E.Sum, f, k), prefix+"-converted-set-is-sent-unmodified", name, call.Pos(), "the callee does not write through this parameter",
+					tracked[info.ObjectOf(id)]+" is handed to "+f.Name()+", which writes through it: the Advanced set no longer has the built-in set's spec (and pod template), and the revision the controller computes for it differs from the recorded one")
+			}
+		}
+		// direct stores into the converted object itself
+		ast.Inspect(h.Decl.Body, func(x ast.Node) bool {
+			as, ok := x.(*ast.AssignStmt)
+			if !ok {
+				return true
+			}
+			for _, l := range as.Lhs {
+				if _, isSel := ast.Unparen(l).(*ast.SelectorExpr); !isSel {
+					if _, isIx := ast.Unparen(l).(*ast.IndexExpr); !isIx {
+						continue
+					}
+				}
+				if r := rootIdent(l); r != nil && tracked[info.ObjectOf(r)] == "the converted set" {
+					n++
+					c.Bad(prefix+"-converted-set-is-sent-unmodified", h.Obj.Name()+": "+types.ExprString(l)+" = ...", l.Pos(), "the converted set is written to before its spec and status are sent")
+				}
+			}
+			return true
+		})
+	}
+	c.OK(prefix+"-converted-set-is-sent-unmodified", "Upgrade: the converted set", fi.Decl.Pos(), fmt.Sprintf("%d uses looked at", n))
 }
